@@ -20,7 +20,7 @@ RULE = ('all 15 set partitions of 4 nodes x relabelling family {zero-based, reve
         'digraphs with <=... (every 16th of 4096)} for participation_coef (3 degree modes), participation_coef_sign, '
         'module_degree_zscore (flags 0-3), diversity_coef_sign, gateway_coef_sign (2 centrality types), modularity_und/_dir '
         '(kci), modularity_und_sign; partition_distance on all ordered pairs of partitions of 4 and 5 nodes (2704) with '
-        'relabellings of each side; agreement / agreement_weighted on all pairs and triples of 4-node partitions; ci2ls/ls2ci on '
+        'relabellings of each side; agreement (buffsz default, 1, 2, 3) / agreement_weighted on all pairs and triples of 4-node partitions; ci2ls/ls2ci (zeroindexed False and True) on '
         'every partition and relabelling (thorough: 5-node partitions x 5-node binary graphs); non-trivial = (W, partition) '
         'with 2 <= k < n modules and at least one connection inside and one between modules')
 ASSUMPTIONS = ['relabellings are injective maps applied to a 1..k label vector (bctmc.smallscope.relabellings)',
@@ -189,6 +189,12 @@ def work(unit):
                 continue
             if not orc.close(np.asarray(base[1], dtype=float), exp):
                 t.viol('agreement', 'counts_co_assignments', case, observed=base[1], expected=exp)
+            # the buffered evaluation (buffsz below / equal to / above the number of partitions) is the same function
+            for bs in (1, 2, 3):
+                rb = result(lambda c, bs=bs: bct.agreement(c, buffsz=bs), cis)
+                if not same_result(base, rb):
+                    t.viol('agreement', 'counts_co_assignments', dict(case, buffsz=bs), observed=rb[1], expected=exp,
+                           tags={'buffsz': bs})
             for variant, tr in (('tens', lambda c: c * 10), ('zero_based', lambda c: c - 1),
                                 ('reversed', lambda c: c.max() + 1 - c), ('large', lambda c: c + 10 ** 6),
                                 ('int8_extremes', lambda c: ss.relabellings(c)['int8_extremes']),
@@ -228,6 +234,20 @@ def work(unit):
             back = np.asarray(back)
             if back.shape != ci.shape or not np.array_equal(np.equal.outer(back, back), np.equal.outer(ci, ci)):
                 t.viol('ci2ls', 'round_trip_up_to_renaming', case, observed=back, expected=ci)
+            st, back0 = guarded(bct.ls2ci, ls, zeroindexed=True)
+            if st != 'ok':
+                t.viol('ls2ci', 'raises', dict(case, zeroindexed=True), observed=back0)
+            else:
+                back0 = np.asarray(back0)
+                if back0.shape != ci.shape or not np.array_equal(np.equal.outer(back0, back0), np.equal.outer(ci, ci)) \
+                        or (back0.size and (back0.min() != 0 or not np.array_equal(back0 + 1, back))):
+                    t.viol('ls2ci', 'zero_indexed_is_the_same_partition', dict(case, zeroindexed=True), observed=back0, expected=back)
+            for zi in (False, True):
+                st, ls0 = guarded(bct.ci2ls, rl.copy(), zeroindexed=zi)
+                if st == 'ok':
+                    m0 = sorted(sorted(int(v) - (0 if zi else 0) for v in grp) for grp in ls0)
+                    if m0 != sorted(sorted(int(v) for v in np.where(ci == c)[0]) for c in np.unique(ci)):
+                        t.viol('ci2ls', 'lists_are_the_blocks', dict(case, zeroindexed=zi), observed=m0)
             members = sorted(sorted(int(v) for v in grp) for grp in ls)
             expm = sorted(sorted(int(v) for v in np.where(ci == c)[0]) for c in np.unique(ci))
             if members != expm:
